@@ -96,6 +96,72 @@ func addrRootedAtAlloc(v ssa.Value) bool {
 	return false
 }
 
+// isFreshViaParam: an access inside a helper the rules do not know, through a
+// pointer parameter for which every call site passes the address of an
+// object allocated in the caller (the helper works on the caller's
+// unpublished local, as if its body were written there).
+func (p *Prog) isFreshViaParam(a Access) bool {
+	fn := a.Fn
+	if fn == nil || fn.Parent() != nil || knownFuncs[p.Name(fn)] {
+		return false
+	}
+	var v ssa.Value
+	switch x := a.Instr.(type) {
+	case *ssa.Store:
+		v = x.Addr
+	case *ssa.UnOp:
+		v = x.X
+	case *ssa.Slice:
+		v = x.X
+	default:
+		return false
+	}
+	for i := 0; i < 6; i++ {
+		switch x := v.(type) {
+		case *ssa.FieldAddr:
+			v = x.X
+			continue
+		case *ssa.IndexAddr:
+			v = x.X
+			continue
+		}
+		break
+	}
+	pr, ok := v.(*ssa.Parameter)
+	if !ok {
+		return false
+	}
+	k := -1
+	for i, q := range fn.Params {
+		if q == pr {
+			k = i
+		}
+	}
+	if k < 0 {
+		return false
+	}
+	sites := 0
+	for _, g := range p.FuncSeq {
+		for _, h := range withAnon(g) {
+			bad := false
+			allInstrs(h, func(in ssa.Instruction) {
+				ci, ok := in.(ssa.CallInstruction)
+				if !ok || ci.Common().StaticCallee() != fn {
+					return
+				}
+				sites++
+				if _, isCall := in.(*ssa.Call); !isCall || k >= len(ci.Common().Args) || !addrRootedAtAlloc(ci.Common().Args[k]) {
+					bad = true
+				}
+			})
+			if bad {
+				return false
+			}
+		}
+	}
+	return sites > 0
+}
+
 // checkOwnership evaluates G1 for the package and records obligations under
 // the given rule name.
 func (c *Check) checkOwnership(rule string) {
@@ -110,7 +176,7 @@ func (c *Check) checkOwnership(rule string) {
 	for _, r := range roots {
 		for fn := range r.Funcs {
 			for _, a := range p.fieldAccesses(fn) {
-				if isFreshAccess(a) {
+				if isFreshAccess(a) || p.isFreshViaParam(a) {
 					continue
 				}
 				// accesses of a helper the rules do not know are attributed to
@@ -464,4 +530,49 @@ func sameChanValue(a, b ssa.Value) bool {
 		}
 	}
 	return strip(a) == strip(b)
+}
+
+// capturedVarDiscipline (G5): a goroutine never shares a variable cell that
+// its spawner rewrites after the go statement. go.mod declares a language
+// version below 1.22, so a `for ... range` variable is one cell for the whole
+// loop: a goroutine closing over it observes the values of later iterations
+// (all accept goroutines end up on the last listener). In SSA a captured
+// variable is an Alloc bound by MakeClosure; the rule reports every store to
+// that Alloc in the spawner that is reachable from the go statement.
+func (c *Check) capturedVarDiscipline(rule string) {
+	p := c.P
+	n := 0
+	for _, s := range p.spawns() {
+		mc, ok := s.Instr.Call.Value.(*ssa.MakeClosure)
+		if !ok {
+			n++
+			c.ok(rule, p.Name(s.In), "go statement without captured variables", p.InstrPos(s.Instr), "target is not a closure: arguments are evaluated at the go statement")
+			continue
+		}
+		tn := "<dynamic>"
+		if s.Target != nil {
+			tn = p.Name(s.Target)
+		}
+		for i, b := range mc.Bindings {
+			al, isAlloc := b.(*ssa.Alloc)
+			if !isAlloc {
+				continue // captured by value (SSA register): immutable
+			}
+			n++
+			name := al.Comment
+			if i < len(s.Target.FreeVars) {
+				name = s.Target.FreeVars[i].Name()
+			}
+			hit := pathSearch(s.In, s.Instr, func(x ssa.Instruction) bool {
+				st, isS := x.(*ssa.Store)
+				return isS && st.Addr == ssa.Value(al)
+			}, nil)
+			detail := "no store to the captured variable is reachable in the spawner after the go statement"
+			if hit != nil {
+				detail = "the spawner stores to the captured variable at " + p.InstrPos(hit) + " after the go statement (with the module's pre-1.22 loop variable semantics every goroutine then sees the last value)"
+			}
+			c.require(hit == nil, rule, p.Name(s.In), "go "+tn+" captures "+name, p.InstrPos(s.Instr), detail)
+		}
+	}
+	c.floor(rule, n, 5, "go statements / captured cells")
 }
